@@ -53,6 +53,10 @@ def merge_cases(draw, max_chroms=3, max_bins=5):
                "float64": gen.DYADIC.filter(lambda v: v > 0)}[count_dtypes[t]]
         vals = draw(st.lists(st.tuples(cnt, xval), min_size=len(sel), max_size=len(sel)))
         inputs.append([[c[0], c[1], v[0], v[1]] for c, v in zip(sel, vals)])
+    # a wider output type requested for the merge: 32-bit inputs whose per-pixel sums only fit the requested 64-bit column
+    out_dtype = draw(st.sampled_from([None, None, None, "int64"])) if all(d == "int32" for d in count_dtypes) else None
+    if out_dtype:
+        inputs = [[[r[0], r[1], r[2] + (2**31 - 1001 if (r[0] + r[1] + t) % 2 == 0 else 0), r[3]] for r in rows] for t, rows in enumerate(inputs)]
     cols = draw(st.sampled_from([None, None, ["count"], ["count", "x"], ["x"], ["count", "x"], ["x", "count"]]))
     agg_count = draw(st.sampled_from(["sum", "sum", "min", "max", "count", "range"]))
     agg_x = draw(st.sampled_from(["sum", "sum", "max"]))
@@ -67,7 +71,7 @@ def merge_cases(draw, max_chroms=3, max_bins=5):
             "agg_count": agg_count, "agg_x": agg_x, "mergebuf": draw(st.sampled_from([1, 2, 3, 7, 50, 10**6])),
             "order": list(draw(st.permutations(leaves))), "tree": tree,
             "count_dtypes": count_dtypes, "via": draw(st.sampled_from(["api", "api", "cli"])),
-            "support": support, "x_kind": x_kind,
+            "support": support, "x_kind": x_kind, "out_dtype": out_dtype,
             # where the inputs live: one file each, or all as groups of ONE file (as the chunks of an unordered load do)
             "same_file": draw(st.integers(0, 3)) == 0}
 
@@ -111,6 +115,9 @@ def check_merge(case, ctx: Ctx):
             kw["agg"] = {"count": (lambda s_: s_.max() - s_.min()) if case["agg_count"] == "range" else case["agg_count"]}
         if "x" in cols and aggs["x"] != "sum":
             kw.setdefault("agg", {})["x"] = aggs["x"]
+        od = case.get("out_dtype") if "count" in cols and case["agg_count"] in ("sum", "max", "min") else None
+        if od:
+            kw["dtypes"] = {"count": np.dtype(od)}
         via = case.get("via", "api") if case["agg_count"] != "range" else "api"
         if via == "cli":
             from ..cliutil import run_cli
@@ -119,7 +126,10 @@ def check_merge(case, ctx: Ctx):
             if case["cols"] is not None or any(aggs[c] != "sum" for c in cols):
                 for c in cols:
                     a = aggs[c]
-                    args += ["--field", c + (f":agg={a}" if a != "sum" else "")]
+                    props = ([f"agg={a}"] if a != "sum" else []) + ([f"dtype={od}"] if od and c == "count" else [])
+                    args += ["--field", c + (":" + ",".join(props) if props else "")]
+            elif od:
+                args += ["--field", f"count:dtype={od}"]
             rc, _, exc = run_cli(args)
             check(rc == 0 and exc is None, f"cooler merge ... {args[-4:]} failed: exit {rc} {exc!r}")
         else:
@@ -141,7 +151,7 @@ def check_merge(case, ctx: Ctx):
         if "count" in cols and case["agg_count"] == "sum":
             tot = sum(r[2] for rows in case["inputs"] for r in rows)
             check(clr.info["sum"] == tot, f"recorded total {clr.info['sum']} != sum of input totals {tot}")
-            want_dt = str(np.result_type(*[np.dtype(d) for d in case["count_dtypes"]]))
+            want_dt = od or str(np.result_type(*[np.dtype(d) for d in case["count_dtypes"]]))
             got_dt = str(clr.pixels()[0:0]["count"].dtype)
             check(got_dt == want_dt, f"merged count column stored as {got_dt}, the inputs' common type is {want_dt}")
         if "x" in cols and case.get("x_kind") == "bigint" and aggs["x"] in ("sum", "max"):
@@ -175,7 +185,7 @@ def check_merge(case, ctx: Ctx):
             seen[(r[0], r[1])] = seen.get((r[0], r[1]), 0) + 1
     nt = len(case["inputs"]) >= 2 and any(v >= 2 for v in seen.values()) and any(v == 1 for v in seen.values())
     ctx.record(case, nt, ["merge", f"k={len(case['inputs'])}", "support=" + case["support"], "agg=" + case["agg_count"],
-                          "cols=" + "+".join(cols), f"mergebuf={case['mergebuf']}", "sym" if symmetric else "square", "x=" + case.get("x_kind", "dyadic"), "via=" + case.get("via", "api"),
+                          "cols=" + "+".join(cols), f"mergebuf={case['mergebuf']}", "sym" if symmetric else "square", "x=" + case.get("x_kind", "dyadic"), "out-dtype=" + str(case.get("out_dtype")), "via=" + case.get("via", "api"),
                           "all-empty" if not seen else "has-data"])
 
 
